@@ -115,7 +115,8 @@ def strategy(tier):
     from hypothesis import strategies as st
 
     base = gen.scenario(CFG, flags=FLAGS, max_choices=60, controls=CONTROLS, canceled=True)
-    return st.builds(lambda s, rr: dict(s, rerun=rr), base, st.booleans())
+    # (a quarter of the runs with lazy first reports, see strat_items)
+    return st.builds(lambda s, rr, lz: dict(s, rerun=rr, flags=dict(s["flags"], lazy=1, eager_poll=0) if lz == 0 else s["flags"]), base, st.booleans(), st.integers(0, 3))
 
 
 def strat_directed(tier):
